@@ -2,6 +2,7 @@ import LhasaV.Model.Extract
 import LhasaV.Lemmas.GlobFs
 import LhasaV.Lemmas.MacProps
 import LhasaV.Lemmas.ExtractTree
+import LhasaV.Lemmas.CliProps
 /-!
 # C06 — extraction reproduces the archived tree: contents, names, times, modes, links
 -/
@@ -151,5 +152,46 @@ theorem dir_entry_for_existing_dir_ignored (rd : Reader.St) (fs : Fs.St) (fn : B
     (hT : ExtractTree.Target fs fn cs) (m t : Nat) (hl : Fs.lookup fs (fs.cwd ++ cs) = some (.dir m t)) :
     readerExtract rd fs fn = (true, rd, fs) :=
   ExtractTree.extract_dir_existing rd fs fn cs c ht hc hm hs hT m t hl
+
+/-! ## The command argument (`src/main.c`) -/
+
+/-- **Option letters.** For every option string the tool accepts: files are overwritten without
+asking exactly when an `f` or a `q` (any level) is among the letters; paths are ignored exactly
+when an `i` is; dry run / verbose exactly with `n` / `v`; the extraction directory is what follows
+the first `w` (one optional `=` dropped). (`flags` = the letters before the first `w`.) -/
+theorem option_letters_spec (s : Bytes) (o : Cli.Options) (h : Cli.parseOptions s {} = some o) :
+    o.overwriteAll = ((Cli.flags s).contains 0x66 || (Cli.flags s).contains 0x71) ∧
+    o.usePath = !(Cli.flags s).contains 0x69 ∧
+    o.dryRun = (Cli.flags s).contains 0x6e ∧
+    o.verbose = (Cli.flags s).contains 0x76 ∧
+    o.extractPath = Cli.wdir s := by
+  have := Cli.parseOptions_spec s {} o h
+  refine ⟨by simpa using this.1, by simpa using this.2.1, by simpa using this.2.2.1, by simpa using this.2.2.2.1, ?_⟩
+  rw [this.2.2.2.2]; cases Cli.wdir s <;> rfl
+
+/-- **Command letter.** An accepted command argument is an optional `-`, one of `l v t x e p`
+(`x` and `e` both mean extract), then an accepted option string. -/
+theorem command_letter_spec (cmd : Bytes) (m : Cli.Mode) (o : Cli.Options)
+    (h : Cli.parseCommandLine cmd = some (m, o)) :
+    ∃ c rest, (cmd = c :: rest ∨ cmd = 0x2d :: c :: rest) ∧ Cli.modeForChar c = some m ∧
+      Cli.parseOptions rest {} = some o ∧ (m = .extract ↔ (c = 0x78 ∨ c = 0x65)) := by
+  obtain ⟨c, rest, hc, hm, ho⟩ := Cli.parseCommand_spec _ m o h
+  refine ⟨c, rest, ?_, hm, ho, ?_⟩
+  · rcases Cli.stripDash_spec cmd with h1 | h1
+    · left; rw [← h1]; exact hc
+    · right; rw [h1, hc]
+  · rw [← Cli.modeForChar_extract, hm]; constructor
+    · rintro rfl; rfl
+    · intro h; injection h
+
+/-- plain `x`: prompt before overwriting, paths used, no directory; `xq1`: quiet level 1 implies
+overwrite; `-xfiw=out`: force, flat, into `out` -/
+example : Cli.parseCommandLine [0x78] = some (.extract, {}) := by
+  simp [Cli.parseCommandLine, Cli.stripDash, Cli.parseCommand, Cli.modeForChar, Cli.parseOptions]
+example : Cli.parseCommandLine [0x78, 0x71, 0x31] = some (.extract, { quiet := 1, overwriteAll := true }) := by
+  simp [Cli.parseCommandLine, Cli.stripDash, Cli.parseCommand, Cli.modeForChar, Cli.parseOptions]
+example : Cli.parseCommandLine [0x2d, 0x78, 0x66, 0x69, 0x77, 0x3d, 0x6f, 0x75, 0x74] =
+    some (.extract, { overwriteAll := true, usePath := false, extractPath := some [0x6f, 0x75, 0x74] }) := by
+  simp [Cli.parseCommandLine, Cli.stripDash, Cli.parseCommand, Cli.modeForChar, Cli.parseOptions]
 
 end LhasaV.Props.C06
